@@ -87,6 +87,8 @@ class C09:
         import itertools as _it
         for c in _it.chain(long_cases, file_only_cases(rng), io_histories(tier, rng, n)):
             c["io"] = [k % 4, (k // 4) % 12, (k // 48) % 4]   # target, delimiter, encoding: all 192 combinations cycle
+            if c["io"][2] == 1 and c.get("ids") in ("str", "jstr") and set(gen.nodes_of(c["ops"])) & {4, 5, 6}:
+                c["io"][2] = 0                              # labels outside latin-1 are written in utf-8 (the encoding must fit the text)
             if c.get("fileonly"):
                 c["io"] = [k % 4, 1 + k % 3, 0]             # explicit non-blank delimiter, utf-8
             k += 1
@@ -219,6 +221,8 @@ class C10:
         import itertools as _it
         for c in _it.chain(long_cases, file_only_cases(rng), io_histories(tier, rng, n)):
             c["io"] = [k % 4, (k // 4) % 12, (k // 48) % 4]   # target, delimiter, encoding: all 192 combinations cycle
+            if c["io"][2] == 1 and c.get("ids") in ("str", "jstr") and set(gen.nodes_of(c["ops"])) & {4, 5, 6}:
+                c["io"][2] = 0                              # labels outside latin-1 are written in utf-8
             if c.get("fileonly"):
                 c["io"] = [k % 4, 1 + k % 3, 0]
             c["log"] = random_log(rng, bool(c["cls"]))
